@@ -209,13 +209,14 @@ func coreTopLevelRules(r *Run, silentRule, exitRule string) {
 		// what reaches the sink
 		for _, ev := range p.events {
 			c, ok := ev.(*ssa.Call)
-			if !ok || c.Call.StaticCallee() != m.sink || len(c.Call.Args) != 3 {
+			if !ok || c.Call.StaticCallee() != m.sink || w.sinkValueArg(&c.Call) == nil {
 				continue
 			}
-			v := p.resolve(stripIface(p.resolve(c.Call.Args[2])))
+			sinkArg := w.sinkValueArg(&c.Call)
+			v := p.resolve(stripIface(p.resolve(sinkArg)))
 			key, vd := "", verdict{pos: c.Pos()}
 			switch {
-			case isNilConst(v) || isNilConst(p.resolve(c.Call.Args[2])):
+			case isNilConst(v) || isNilConst(p.resolve(sinkArg)):
 				key, vd.ok, vd.why = "nothing (nil)", true, "a silent statement writes nothing"
 			default:
 				if cal, _ := evalResult(p, v, 0); cal != nil {
